@@ -207,13 +207,14 @@ func (s *vfStress) routeSink(addr string) {
 	go func() { <-s.stop; c.Close() }()
 }
 
+// every request names a To host never seen before: the static-route lookup of every listener works on fresh keys
 func (s *vfStress) request(id, sentby, proto string, route string) []byte {
 	hs := []vfHdr{}
 	if route != "" {
 		hs = append(hs, vfHdr{"Route", route})
 	}
 	hs = append(hs, vfHdr{"Via", fmt.Sprintf("SIP/2.0/%s %s;branch=z9hG4bK%s;rport", proto, sentby, id)}, vfHdr{"Max-Forwards", "70"},
-		vfHdr{"From", "<sip:c@c.example>;tag=c"}, vfHdr{"To", "<sip:service@svc.example.com>"}, vfHdr{"Call-ID", id}, vfHdr{"CSeq", "1 OPTIONS"}, vfHdr{"Content-Length", "0"})
+		vfHdr{"From", "<sip:c@c.example>;tag=c"}, vfHdr{"To", "<sip:service@t" + strings.ToLower(id) + ".example>"}, vfHdr{"Call-ID", id}, vfHdr{"CSeq", "1 OPTIONS"}, vfHdr{"Content-Length", "0"})
 	return vfRender("OPTIONS sip:service@svc.example.com SIP/2.0", hs, nil)
 }
 
